@@ -144,7 +144,7 @@ def SafeC (G : List Op) : Prop :=
   (∀ b ∈ finals G, ∀ b' ∈ finals G, b.1 = b'.1 → b = b') ∧
   (∀ l ∈ linksOf G, l.1 ∈ finals G → ∀ q ∈ finals G, ¬ (l.2.1 < q.1 ∧ q.1 < l.1.1)) ∧
   (∀ b ∈ notars G, ∀ b' ∈ notars G, b.1 = b'.1 → b = b') ∧
-  (∀ b ∈ notars G, ∀ b' ∈ finals G, b.1 = b'.1 → b = b') ∧
+  (∀ b ∈ notars G, ∀ b' ∈ cands G, directB G b' = true → b.1 = b'.1 → b = b') ∧
   (∀ s ∈ finSlots G, ∀ l ∈ linksOf G, l.1 ∈ finals G → ¬ (l.2.1 < s ∧ s < l.1.1))
 
 instance (G : List Op) : Decidable (SafeC G) := by unfold SafeC; infer_instance
@@ -164,7 +164,7 @@ theorem safeC_iff {G : List Op} : SafeC G ↔ Safe G := by
     · intro b b' a a' e
       exact h5 b (mem_notars.mpr a) b' (mem_notars.mpr a') e
     · intro b b' a a' e
-      exact h6 b (mem_notars.mpr a) b' (mf.mpr a') e
+      exact h6 b (mem_notars.mpr a) b' (final_mem_cands (.direct a')) (directB_iff.mpr a') e
     · intro s a ⟨c, p, hc, hl, x, y⟩
       exact h7 s (mem_finSlots.mpr a) (c, p) (mem_linksOf.mpr hl) (mf.mpr hc) ⟨x, y⟩
   · intro sf
@@ -182,8 +182,8 @@ theorem safeC_iff {G : List Op} : SafeC G ↔ Safe G := by
       exact sf.no_final_between l.1 l.2 q (mf.mp hf) (mem_linksOf.mp hl) (mf.mp hq)
     · intro b hb b' hb' e
       exact sf.notar_fun b b' (mem_notars.mp hb) (mem_notars.mp hb') e
-    · intro b hb b' hb' e
-      exact sf.notar_final b b' (mem_notars.mp hb) (mf.mp hb') e
+    · intro b hb b' _ hd e
+      exact sf.notar_direct b b' (mem_notars.mp hb) (directB_iff.mp hd) e
     · intro s hs l hl hf hx
       exact sf.fin_not_skip s (mem_finSlots.mp hs) ⟨l.1, l.2, mf.mp hf, mem_linksOf.mp hl, hx.1, hx.2⟩
 
